@@ -104,7 +104,7 @@ struct Engine {
     Lib impl;
     VState base;
     Result& res;
-    std::unordered_set<u64> digests;
+    DigestSet digests;
     explicit Engine(Result& r) : res(r) {
         impl = LoadLib("libimpl.so");
         impl.api->default_state(&base);
